@@ -2,7 +2,8 @@ package fakes17
 
 // minich.go — a reference interpreter for the small SELECT subset the reader's selector planners emit
 // (WITH sub-queries, WHERE/GROUP BY/HAVING/ORDER BY/LIMIT, comparisons, and/or, IN lists and IN (with-name),
-// match(), bitShiftLeft(), groupBitOr(), toUInt64(), intDiv(), %, +, -, *), over in-memory tables.
+// match(), bitShiftLeft(), groupBitOr(), toUInt64(), intDiv(), %, +, -, *, /, the aggregates argMax, argMaxMerge,
+// countMerge, count, min, max, sum), over in-memory tables.
 // It is an oracle device: the text the real planner produced is executed on a generated database and the
 // rows go back to the real reader code through the scripted database/sql driver.
 //
@@ -11,7 +12,8 @@ package fakes17
 //   - bitShiftLeft(a, n) has the type of a: bits shifted out of that width are lost;
 //   - a + b is computed in a wider type (no wrap-around for the sums that occur);
 //   - match(haystack, pattern) is an unanchored RE2 search;
-//   - select aliases are visible in WHERE;
+//   - select aliases are visible in WHERE, GROUP BY and ORDER BY, and an unqualified name that is an alias means the
+//     aliased expression even when the source has a column of that name (`tbl.col` is the column);
 //   - string literals use backslash escapes.
 // Anything outside the subset is an error (fail closed), never a guess.
 
@@ -43,11 +45,11 @@ type Value struct {
 	Raw  any
 }
 
-func Int(i int64) Value      { return Value{Kind: VInt, I: big.NewInt(i), Bits: 64} }
-func Uint(u uint64) Value    { return Value{Kind: VInt, I: new(big.Int).SetUint64(u), Bits: 64} }
-func Str(s string) Value     { return Value{Kind: VStr, S: s} }
-func Float(f float64) Value  { return Value{Kind: VFloat, F: f} }
-func RawValue(x any) Value   { return Value{Kind: VRaw, Raw: x} }
+func Int(i int64) Value     { return Value{Kind: VInt, I: big.NewInt(i), Bits: 64} }
+func Uint(u uint64) Value   { return Value{Kind: VInt, I: new(big.Int).SetUint64(u), Bits: 64} }
+func Str(s string) Value    { return Value{Kind: VStr, S: s} }
+func Float(f float64) Value { return Value{Kind: VFloat, F: f} }
+func RawValue(x any) Value  { return Value{Kind: VRaw, Raw: x} }
 func u8(b bool) Value {
 	if b {
 		return Value{Kind: VInt, I: big.NewInt(1), Bits: 8}
@@ -539,13 +541,14 @@ type DB struct {
 }
 
 type env struct {
-	db    *DB
-	sel   *Select
-	row   Row     // current source row (nil for a group)
-	group []Row   // rows of the current group (aggregates)
-	out   Row     // already computed output columns (ORDER BY)
-	subs  map[string][]Value
-	depth int
+	db        *DB
+	sel       *Select
+	row       Row   // current source row (nil for a group)
+	group     []Row // rows of the current group (aggregates)
+	out       Row   // already computed output columns (ORDER BY)
+	subs      map[string][]Value
+	depth     int
+	aliasBusy map[string]bool // aliases being expanded (an alias whose expression names itself unqualified is the column)
 }
 
 func (e *env) col(name string) (Value, error) {
@@ -557,6 +560,22 @@ func (e *env) col(name string) (Value, error) {
 	short := name
 	if j := strings.IndexByte(name, '.'); j >= 0 && (name[:j] == e.sel.alias || name[:j] == e.sel.from) {
 		short = name[j+1:]
+	} else if j < 0 && e.depth < 4 {
+		// ClickHouse (prefer_column_name_to_alias = 0): an unqualified name that is a select alias stands for the
+		// aliased expression, also when the source has a column of that name; `tbl.col` is the source column.
+		for _, it := range e.sel.cols {
+			if it.alias == name && !(it.e.Kind == "id" && it.e.S == name) && !e.aliasBusy[name] {
+				if e.aliasBusy == nil {
+					e.aliasBusy = map[string]bool{}
+				}
+				e.aliasBusy[name] = true
+				e.depth++
+				v, err := e.eval(it.e)
+				e.depth--
+				delete(e.aliasBusy, name)
+				return v, err
+			}
+		}
 	}
 	row := e.row
 	if row == nil && len(e.group) > 0 {
@@ -694,6 +713,20 @@ func (e *env) eval(n *Node) (Value, error) {
 			}
 			return u8(c < 0), nil
 		}
+		if (a.Kind == VFloat || b.Kind == VFloat) && (a.Kind == VFloat || a.Kind == VInt) && (b.Kind == VFloat || b.Kind == VInt) {
+			x, y := toF(a), toF(b)
+			switch n.S {
+			case "+":
+				return Float(x + y), nil
+			case "-":
+				return Float(x - y), nil
+			case "*":
+				return Float(x * y), nil
+			case "/":
+				return Float(x / y), nil
+			}
+			return Value{}, fmt.Errorf("minich: %s on floats", n.S)
+		}
 		if a.Kind != VInt || b.Kind != VInt {
 			return Value{}, fmt.Errorf("minich: arithmetic on non-integers")
 		}
@@ -747,6 +780,9 @@ func (e *env) call(n *Node) (Value, error) {
 		}
 		return Value{Kind: VInt, I: acc, Bits: bits}, nil
 	}
+	if aggregates[name] {
+		return e.aggregate(n)
+	}
 	args := make([]Value, len(n.Args))
 	for i, a := range n.Args {
 		v, err := e.eval(a)
@@ -794,6 +830,126 @@ func (e *env) call(n *Node) (Value, error) {
 		return f(args)
 	}
 	return Value{}, fmt.Errorf("minich: unknown function %s", name)
+}
+
+var aggregates = map[string]bool{"argMax": true, "argMaxMerge": true, "min": true, "max": true, "sum": true, "countMerge": true, "count": true}
+
+// ArgMaxState is the state of argMaxState(value, ts): the value seen with the greatest ts.
+type ArgMaxState struct {
+	Val float64
+	Ts  int64
+}
+
+func toF(v Value) float64 {
+	if v.Kind == VFloat {
+		return v.F
+	}
+	f, _ := new(big.Float).SetInt(v.I).Float64()
+	return f
+}
+
+// aggregate functions over the rows of the current group. argMax(a, b): the a of the first row (in source order)
+// whose b is the greatest (ClickHouse replaces the kept pair only for a strictly greater b); argMaxMerge(state): the
+// same over states; countMerge(state) = sum of the partial counts; min/max/sum over floats or integers.
+func (e *env) aggregate(n *Node) (Value, error) {
+	if e.group == nil || e.row != nil {
+		return Value{}, fmt.Errorf("minich: aggregate %s outside GROUP BY", n.S)
+	}
+	var per [][]Value
+	for _, r := range e.group {
+		sub := &env{db: e.db, sel: e.sel, row: r, subs: e.subs}
+		vals := make([]Value, len(n.Args))
+		for i, a := range n.Args {
+			v, err := sub.eval(a)
+			if err != nil {
+				return v, err
+			}
+			vals[i] = v
+		}
+		per = append(per, vals)
+	}
+	want := func(k int) error {
+		if len(n.Args) != k {
+			return fmt.Errorf("minich: %s takes %d argument(s)", n.S, k)
+		}
+		return nil
+	}
+	switch n.S {
+	case "count":
+		return Uint(uint64(len(per))), nil
+	case "argMax":
+		if err := want(2); err != nil {
+			return Value{}, err
+		}
+		best := per[0]
+		for _, p := range per[1:] {
+			c, err := compare(p[1], best[1])
+			if err != nil {
+				return Value{}, err
+			}
+			if c > 0 {
+				best = p
+			}
+		}
+		return best[0], nil
+	case "argMaxMerge":
+		if err := want(1); err != nil {
+			return Value{}, err
+		}
+		var best *ArgMaxState
+		for _, p := range per {
+			st, ok := p[0].Raw.(ArgMaxState)
+			if p[0].Kind != VRaw || !ok {
+				return Value{}, fmt.Errorf("minich: argMaxMerge of a non-state")
+			}
+			if best == nil || st.Ts > best.Ts {
+				x := st
+				best = &x
+			}
+		}
+		return Float(best.Val), nil
+	case "countMerge":
+		if err := want(1); err != nil {
+			return Value{}, err
+		}
+		acc := new(big.Int)
+		for _, p := range per {
+			if p[0].Kind != VInt {
+				return Value{}, fmt.Errorf("minich: countMerge of a non-state")
+			}
+			acc.Add(acc, p[0].I)
+		}
+		return Value{Kind: VInt, I: acc, Bits: 64}, nil
+	case "min", "max", "sum":
+		if err := want(1); err != nil {
+			return Value{}, err
+		}
+		acc := per[0][0]
+		if acc.Kind != VFloat && acc.Kind != VInt {
+			return Value{}, fmt.Errorf("minich: %s of a non-number", n.S)
+		}
+		for _, p := range per[1:] {
+			v := p[0]
+			if v.Kind != acc.Kind {
+				return Value{}, fmt.Errorf("minich: %s over mixed types", n.S)
+			}
+			switch n.S {
+			case "sum":
+				if v.Kind == VFloat {
+					acc = Float(acc.F + v.F)
+				} else {
+					acc = Value{Kind: VInt, I: new(big.Int).Add(acc.I, v.I), Bits: 64}
+				}
+			default:
+				c, _ := compare(v, acc)
+				if (n.S == "min" && c < 0) || (n.S == "max" && c > 0) {
+					acc = v
+				}
+			}
+		}
+		return acc, nil
+	}
+	return Value{}, fmt.Errorf("minich: unknown aggregate %s", n.S)
 }
 
 // Exec parses and runs one SELECT; returns column names and rows.
